@@ -336,3 +336,43 @@ Definition w_ok_run : list act :=
   [AEnter 0; AEnter 2; ARet None; ARet (Some (7%N, 1)); ARet None].
 
 Definition w_ok_reqs : list request := [QStep REntry; QStep RStepOver; QStep RStepInto; QStep RStepOut].
+
+(* ------------------------------------------------------------------ *)
+(** * SetBreakpoints generates closures early
+
+    A closure captures the closure of its node's successor at the moment it is generated
+    ("next := getExec(n.tnext)" in every generator). Execute links the package-level variable
+    declarations (genGlobalVars -> genGlobalVarDecl -> wireChild) and then generates the closures
+    that do not exist yet (setExec returns at once on a node that has one). A line request makes
+    SetBreakpoints call getExec on every positioned node before Execute runs. *)
+Definition wiring := node -> option node.
+
+(** The successor that the closure of [n] captured: the wiring at the time it was generated. *)
+Definition captured (early : node -> bool) (before after : wiring) : wiring :=
+  fun n => if early n then before n else after n.
+
+(** The operations of a straight-line run that follows the captured successors. *)
+Fixpoint follow (w : wiring) (fuel : nat) (n : node) : list node :=
+  match fuel with
+  | 0 => []
+  | S k => n :: match w n with Some s => follow w k s | None => [] end
+  end.
+
+Definition acts_of (pcs : node -> pc) (l : list node) : list act :=
+  match l with
+  | [] => []
+  | n :: r => AEnter n :: map (fun s => ARet (Some (pcs s, s))) r ++ [ARet None]
+  end.
+
+(** var g1 = f(2); var g2 = f(0): node 0 and node 1; linked 0 -> 1 only by Execute. *)
+Definition w_glob_before : wiring := fun _ => None.
+Definition w_glob_after : wiring := fun n => match n with 0 => Some 1 | _ => None end.
+Definition w_glob : cfg := {|
+  tnext := w_glob_after; fnext := fun _ => None;
+  ident := fun n => Some (N.of_nat n + 5)%N; haspos := fun _ => true; flagged := fun _ => false;
+  orig := fun _ _ => None |}.
+Definition w_glob_pcs (n : node) : pc := (N.of_nat n + 5)%N.
+Definition w_glob_plain : list act :=
+  acts_of w_glob_pcs (follow (captured (fun _ => false) w_glob_before w_glob_after) 5 0).
+Definition w_glob_linereq : list act :=
+  acts_of w_glob_pcs (follow (captured (fun _ => true) w_glob_before w_glob_after) 5 0).
